@@ -27,7 +27,7 @@ class C03(Check):
                    'comment are never compared (parsed content and byte prefixes only)',
                    'the audit hook sees every open() made through the io layer (builtin open / io.open)']
     REQUIRED_COUNTERS = ('append_write_failures', 'unsized_char_histories', 'appends_ok', 'refusals_write_over', 'refusals_append_missing', 'append_empty', 'write_copy',
-                         'rereads_raw', 'prefix_checks', 'audit_open_events', 'lowercase_key_appends', 'array_form_appends', 'append_zero_rows')
+                         'rereads_raw', 'prefix_checks', 'audit_open_events', 'lowercase_key_appends', 'array_form_appends', 'append_zero_rows', 'refusals_write_over_empty_file')
 
     def setup(self):
         import pydl.pydlutils.yanny as Y
@@ -126,7 +126,7 @@ class C03(Check):
         nkeys = 0
         for step in range(rng.randint(1, 12)):
             op = rng.choice(['rows', 'rows', 'rows', 'pairs', 'both', 'empty', 'copy', 'over', 'over_other', 'missing',
-                             'reread', 'nofilename', 'rows_io_fail'])
+                             'reread', 'nofilename', 'rows_io_fail', 'over_empty'])
             if op in ('rows', 'both', 'rows_io_fail'):
                 which = rng.sample(range(ntab), rng.randint(1, min(3, ntab)))
                 d = {'op': op, 'tables': [], 'form': rng.choice(['list', 'array', 'list'])}
@@ -171,7 +171,7 @@ class C03(Check):
         elif vt == 'float':
             v = rng.choice([rng.uniform(-1, 1), 2.5, 1e-7, 1e22])
         else:
-            v = rng.choice(['val %d' % n, 'a  b', 'x;y', '(z)', 'v'])
+            v = rng.choice(['val %d' % n, 'a  b', 'x;y', '(z)', 'v', 'Jos\u00e9 N\u00fa\u00f1ez', '\u00b5m', '3 \u03c3 limit'])
         return [k, v, vt]
 
     # ------------------------------------------------------------------ model helpers
@@ -279,7 +279,8 @@ class C03(Check):
             tmp = {'cols': cols, 'rows': tt['rows']}
             arr = M.build_array(tmp)
             if op['form'] == 'array':
-                dd[key] = arr
+                # the record array in one of three memory layouts (same field order and values)
+                dd[key] = M.relayout_fields(arr, ['packed', 'view_permuted', 'aligned'][(len(tt['rows']) + tt['ti']) % 3], seed=tt['ti'])
             else:
                 dd[key] = {c['name']: [arr[c['name']][k] for k in range(len(arr))] for c in t['cols']}
         for k, v, vt in op.get('pairs', []):
@@ -325,6 +326,9 @@ class C03(Check):
         n_ok_append = n_refusal = n_reread = 0
         ncopy = 0
         for si, op in enumerate(case['ops']):
+            if op['op'] == 'over_empty':
+                placeholder = os.path.join(d, 'reserved%d.par' % si)
+                open(placeholder, 'w').close()
             before = self._listing(d)
             bound = y.filename
             self.audit.begin()
@@ -362,6 +366,9 @@ class C03(Check):
                         other = [f for f in before if os.path.join(d, f) != bound]
                         target = os.path.join(d, other[0]) if other else bound
                         y.write(target)
+                    elif op['op'] == 'over_empty':
+                        # the target exists but holds nothing yet (a placeholder made by mkstemp() or touch): still an existing file
+                        y.write(placeholder)
                     elif op['op'] == 'missing':
                         os.remove(bound)
                         try:
@@ -427,7 +434,8 @@ class C03(Check):
                 out.expect(newb in after and y.filename == os.path.join(d, newb), 'write-copy', '%s: object not bound to the copy' % tag)
                 out.expect({k: v for k, v in after.items() if k != newb} == before, 'isolation', '%s: write-copy changed another file' % tag)
                 out.count('write_copy')
-            elif op['op'] in ('over', 'over_other'):
+            elif op['op'] in ('over', 'over_other', 'over_empty'):
+                out.count('refusals_write_over_empty_file', op['op'] == 'over_empty')
                 out.expect(isinstance(exc, self.PU.PydlutilsException), 'refusal',
                            '%s: write over an existing file did not raise PydlutilsException (%r)' % (tag, exc))
                 out.expect(after == before, 'refusal', '%s: files changed by refused write' % tag)
